@@ -6,11 +6,13 @@ import "github.com/jhalter/mobius/verifh/vrt"
 
 type Uint32 struct{ v uint32 }
 
-func (a *Uint32) Add(d uint32) uint32 { vrt.Point("atomic-add", false, nil); a.v += d; return a.v }
-func (a *Uint32) Load() uint32        { vrt.Point("atomic-load", false, nil); return a.v }
-func (a *Uint32) Store(x uint32)      { vrt.Point("atomic-store", false, nil); a.v = x }
+func (a *Uint32) Add(d uint32) uint32 { vrt.Point("atomic-add", false, nil); vrt.RaceAcquire(a); defer vrt.RaceRelease(a); a.v += d; return a.v }
+func (a *Uint32) Load() uint32        { vrt.Point("atomic-load", false, nil); vrt.RaceAcquire(a); return a.v }
+func (a *Uint32) Store(x uint32)      { vrt.Point("atomic-store", false, nil); defer vrt.RaceRelease(a); a.v = x }
 func (a *Uint32) CompareAndSwap(o, n uint32) bool {
 	vrt.Point("atomic-cas", false, nil)
+	vrt.RaceAcquire(a)
+	defer vrt.RaceRelease(a)
 	if a.v == o {
 		a.v = n
 		return true
@@ -20,23 +22,23 @@ func (a *Uint32) CompareAndSwap(o, n uint32) bool {
 
 type Int32 struct{ v int32 }
 
-func (a *Int32) Add(d int32) int32 { vrt.Point("atomic-add", false, nil); a.v += d; return a.v }
-func (a *Int32) Load() int32       { vrt.Point("atomic-load", false, nil); return a.v }
-func (a *Int32) Store(x int32)     { vrt.Point("atomic-store", false, nil); a.v = x }
+func (a *Int32) Add(d int32) int32 { vrt.Point("atomic-add", false, nil); vrt.RaceAcquire(a); defer vrt.RaceRelease(a); a.v += d; return a.v }
+func (a *Int32) Load() int32       { vrt.Point("atomic-load", false, nil); vrt.RaceAcquire(a); return a.v }
+func (a *Int32) Store(x int32)     { vrt.Point("atomic-store", false, nil); defer vrt.RaceRelease(a); a.v = x }
 
 type Int64 struct{ v int64 }
 
-func (a *Int64) Add(d int64) int64 { vrt.Point("atomic-add", false, nil); a.v += d; return a.v }
-func (a *Int64) Load() int64       { vrt.Point("atomic-load", false, nil); return a.v }
-func (a *Int64) Store(x int64)     { vrt.Point("atomic-store", false, nil); a.v = x }
+func (a *Int64) Add(d int64) int64 { vrt.Point("atomic-add", false, nil); vrt.RaceAcquire(a); defer vrt.RaceRelease(a); a.v += d; return a.v }
+func (a *Int64) Load() int64       { vrt.Point("atomic-load", false, nil); vrt.RaceAcquire(a); return a.v }
+func (a *Int64) Store(x int64)     { vrt.Point("atomic-store", false, nil); defer vrt.RaceRelease(a); a.v = x }
 
 type Uint64 struct{ v uint64 }
 
-func (a *Uint64) Add(d uint64) uint64 { vrt.Point("atomic-add", false, nil); a.v += d; return a.v }
-func (a *Uint64) Load() uint64        { vrt.Point("atomic-load", false, nil); return a.v }
-func (a *Uint64) Store(x uint64)      { vrt.Point("atomic-store", false, nil); a.v = x }
+func (a *Uint64) Add(d uint64) uint64 { vrt.Point("atomic-add", false, nil); vrt.RaceAcquire(a); defer vrt.RaceRelease(a); a.v += d; return a.v }
+func (a *Uint64) Load() uint64        { vrt.Point("atomic-load", false, nil); vrt.RaceAcquire(a); return a.v }
+func (a *Uint64) Store(x uint64)      { vrt.Point("atomic-store", false, nil); defer vrt.RaceRelease(a); a.v = x }
 
 type Bool struct{ v bool }
 
-func (a *Bool) Load() bool   { vrt.Point("atomic-load", false, nil); return a.v }
-func (a *Bool) Store(x bool) { vrt.Point("atomic-store", false, nil); a.v = x }
+func (a *Bool) Load() bool   { vrt.Point("atomic-load", false, nil); vrt.RaceAcquire(a); return a.v }
+func (a *Bool) Store(x bool) { vrt.Point("atomic-store", false, nil); defer vrt.RaceRelease(a); a.v = x }
